@@ -33,6 +33,12 @@ Theorem C34_refs : forall (ans : provider) models outs,
 Proof. exact load_listed. Qed.
 Print Assumptions C34_refs.
 
+(* The fuel of [load] (number of references + 1) always suffices: the hypothesis [= Ok] of the
+   theorems excludes only failed loads (unknown object / unresolvable), never a fuel artefact. *)
+Theorem C34_load_terminates : forall (ans : provider) models, load ans models <> OutOfFuel.
+Proof. exact load_terminates. Qed.
+Print Assumptions C34_load_terminates.
+
 (* What an entry made for reference x and target t contains. *)
 Theorem C34_entry_exact : forall x t,
   let e := mk_entry (x, t) in
